@@ -424,6 +424,21 @@ def C19(tier):
 REG["C19"] = C19
 
 
+def C20(tier):
+    obs = [dict(name="rootfinder-linear-quadratic", pkg="internal/geom", func="Harness_C20_solve2", consts={"UNIQ": 1}, cubes=[{}], solver="z3-new", oneshot=True,
+                qworkers=8, qtimeout=200, validate_cubes=0,
+                bounds="solve2/solve1: coefficients symbolic reals in [-8,8], candidate root in [-1000,1000]; exact real arithmetic (sqrt by its defining equation); "
+                       "relative to the code's epsilon design (|a| < 1e-7 treated as 0)"),
+           dict(name="rootfinder-cubic-cardano", pkg="internal/geom", func="Harness_C20_solve3", consts={"UNIQ": 1}, cubes=[{}], solver="z3-new", oneshot=True,
+                qworkers=8, qtimeout=nm(tier == "quick", 200, 600), validate_cubes=0,
+                bounds="solve3 with non-vanishing leading coefficient and discriminant >= 0 (Cardano branch): coefficients symbolic reals in [-4,4]; "
+                       "sqrt/cbrt by their defining equations; the trigonometric branch (disc < 0) is outside")]
+    return dict(obligations=obs)
+
+
+REG["C20"] = C20
+
+
 def C15(tier):
     q = tier == "quick"
     sh = shapes(3, 3) if q else shapes(4, 4)
